@@ -868,8 +868,8 @@ def build_sweep_pairs(pool, master_seed, n_pairs):
     rng = random.Random(master_seed ^ 0x53EE9)
     pairs = []
 
-    def add(kind, warm, a, b, prewarm):
-        pairs.append({"kind": kind, "warm": warm, "a": a, "b": b, "prewarm": prewarm})
+    def add(kind, warm, a, b, prewarm, obs=()):
+        pairs.append({"kind": kind, "warm": warm, "a": a, "b": b, "prewarm": prewarm, "obs": list(obs)})
 
     cals = list(pool["cal"])
     # per-kind quotas (out of 100, scaled to n_pairs) so that no kind is crowded out by the others
@@ -906,14 +906,17 @@ def build_sweep_pairs(pool, master_seed, n_pairs):
         m = rng.randrange(1, 13)
         a = rng.choice([["date", ca, y, m, rng.randrange(1, 29)], ["ylen", ca, y], ["mlen", ca, y, rng.choice([2, 3, 8, 9])]])
         b = rng.choice([["date", cb, z, m, rng.randrange(1, 29)], ["ylen", cb, z]])
-        warm = rng.choice([[["ylen", ca, y + 1]], [["ylen", ca, y + 1]], [], [["ylen", cb, z]]])
-        if rng.random() < 0.3:
+        warm = rng.choice([[["ylen", ca, y + 1]], [["ylen", ca, y + 1]], [["ylen", ca, y + 1]], [], [["ylen", cb, z]]])
+        r = rng.random()
+        if r < 0.2:
             d = rng.choice([1023, -1023, 1025, -1025, 1024, -1024])
             if lo < y + d < hi:
                 warm = [["ylen", cb, y + d]]
-        elif rng.random() < 0.25:
+        elif r < 0.35:
             warm = [_alias_arith(rng, cb, y)]
-        add("hebrew look-ahead", warm, a, b, ["cal"])
+        h1, h2 = (2, 3) if ca == "Hebrew Civil" else (8, 9)
+        # whatever A was, look at the two months whose length is kept in the cache entry's flag bits afterwards
+        add("hebrew look-ahead", warm, a, b, ["cal"], obs=[["mlen", ca, y, h1], ["mlen", ca, y, h2]])
     for _ in range(quota["failing"] * 3):  # generous: unusable draws are skipped, the quota is applied below
         # a failing arithmetic call (or three) as history, a broad look at the years around it afterwards
         cal = rng.choice(["Hebrew Civil", "Hebrew Scriptural", "Hebrew Civil", rng.choice(cals)])
@@ -1015,7 +1018,7 @@ def _sweep_spec(pair, i, seed):
     nwarm = len(pair["warm"])
     return {
         "prop": PROP, "seed": seed, "mode": "sweep", "families": [pair["kind"]],
-        "threads": [pair["warm"] + [pair["a"], pair["a"], pair["b"]], [pair["b"]]],
+        "threads": [pair["warm"] + [pair["a"], pair["a"], pair["b"]] + list(pair.get("obs") or []), [pair["b"]]],
         "strategy": {"kind": "scripted", "switches": [[-1, 0, 0, 0], [0, nwarm, i, 1]]},
         "prewarm": pair["prewarm"],
     }  # fmt: skip
@@ -1246,7 +1249,7 @@ def prepare(tier, master_seed, workers):
             hist_ops += [warm, q]
     n_pairs = {"quick": 100, "thorough": 600}.get(tier, 12)
     pairs = build_sweep_pairs(_POOL, master_seed, n_pairs)
-    sweep_ops = [o for pr in pairs for o in pr["warm"] + [pr["a"], pr["b"]]]
+    sweep_ops = [o for pr in pairs for o in pr["warm"] + [pr["a"], pr["b"]] + list(pr.get("obs") or [])]
     sweep_ops += [["ziu", o[1], o[2]] for o in sweep_ops if o[0] == "zi"]
     table = cold_table(list(pool_ops(_POOL)) + sweep_ops + hist_ops, workers)
     # second phase: parse ops built from cold formatting answers
